@@ -303,3 +303,151 @@ def phase_impls(ctx, phase):
     ctx.replay_stats["impl_lookups"] = n
     ctx.replay_stats["impl_not_supported"] = unsupported
     return None
+
+
+# ------------------------------------------------------------------------------------------
+# Binding B: trace validation on the metadata plane (TraceMeta.tla / CacheModel.tla)
+
+def _record_repo_tests(out_path):
+    """the repository's own tests, run with tracing on (outcomes unchanged; every verb call logged)"""
+    import subprocess
+    import sys
+
+    env = dict(os.environ, PYDIVERSE_TRANSFORM_VERIF="1", VERIF_TRACE_OUT=out_path)
+    env["PYTHONPATH"] = tlc.VERIF + (os.pathsep + env["PYTHONPATH"] if env.get("PYTHONPATH") else "")
+    repo = os.environ.get("VERIF_REPO_SRC", "/repo/src").rsplit("/src", 1)[0]
+    p = subprocess.run([sys.executable, "-m", "pytest", "-q", "-p", "no:cacheprovider", "-p", "harness.tracer", "--timeout=900",
+                        "tests/test_polars_table.py", "tests/test_core.py"], cwd=repo, env=env, capture_output=True, text=True, timeout=1800)
+    if not os.path.exists(out_path):
+        raise RuntimeError("recording the repository's tests produced no trace file:\n" + p.stdout[-800:] + p.stderr[-800:])
+    return p.stdout.strip().splitlines()[-1] if p.stdout.strip() else ""
+
+
+def _record_replay(args):
+    """worker: replay behaviours one by one with the tracer on; one trace per behaviour and backend-independent order"""
+    path, seed, backends, limit = args
+    import json
+
+    os.environ["PYDIVERSE_TRANSFORM_VERIF"] = "1"
+    from . import tracer
+    from .replay import Replayer
+
+    tracer.install()
+    traces = []
+    n = 0
+    with open(path) as f:
+        for line in f:
+            if n >= limit:
+                break
+            beh = json.loads(line)
+            n += 1
+            for bk in backends:
+                rp = Replayer(seed, backends=(bk,))
+                tracer.start_trace(f"{os.path.basename(path)}#{n}/{bk}")
+                tracer.drain()
+                rp.replay(beh)
+                ev = tracer.drain()
+                if ev:
+                    traces.append(ev)
+    return traces
+
+
+def phase_tracemeta(ctx, phase):
+    import json
+
+    from .check import beh_key
+    from .registry import PROFILES
+
+    d = tlc.prepare(f"{ctx.prop}-tracemeta-{os.getpid()}", ctx.seed)
+    traces = []
+    notes = []
+    if phase.get("repo_tests", True):
+        raw = os.path.join(d, "repo_tests.ndjson")
+        summary = _record_repo_tests(raw)
+        by = {}
+        with open(raw) as f:
+            for line in f:
+                e = json.loads(line)
+                by.setdefault(e["tid"], []).append(e)
+        traces += list(by.values())
+        notes.append(f"repository tests with tracing on: {summary}; {len(by)} traces")
+    # behaviours generated by TLC, replayed with the tracer on
+    for pname, limit in phase.get("profiles", []):
+        prof = dict(PROFILES[pname])
+        defs = dict(prof["defs"])
+        defs["Emit"] = True
+        dd = tlc.prepare(f"{ctx.prop}-tm-{pname}-{os.getpid()}", ctx.seed)
+        tlc.write_model(dd, prof["base"], defs, prof["overrides"])
+        behs = []
+        res = tlc.run(dd, timeout=600, on_json=behs.append)
+        ctx.tlc_states += res["states"]
+        ctx.tlc_distinct += res["distinct"]
+        behs.sort(key=beh_key)
+        step = max(1, len(behs) // limit)
+        pick = behs[::step][:limit]
+        files = []
+        nw = 8
+        for w in range(nw):
+            fp = os.path.join(dd, f"tm_{w}.ndjson")
+            with open(fp, "w") as f:
+                for b in pick[w::nw]:
+                    f.write(json.dumps(b) + "\n")
+            files.append(fp)
+        futs = [ctx.get_pool().submit(_record_replay, (fp, ctx.seed, ("polars", "sqlite"), 10 ** 9)) for fp in files]
+        for fu in futs:
+            traces += fu.result()
+        tlc.cleanup(dd)
+        notes.append(f"profile {pname}: {len(pick)} behaviours replayed with tracing on both back ends")
+    # canary: a corrupted copy of the first non-trivial trace must be rejected at the corrupted step
+    canary_idx = None
+    for t in traces:
+        k = next((i for i, e in enumerate(t) if e["verb"] in ("mutate", "select", "rename") and e["err"] == "" and e["names"]), None)
+        if k is not None:
+            bad = json.loads(json.dumps(t))
+            bad[k]["names"] = list(reversed(bad[k]["names"])) + ["corrupted"]
+            for e in bad:
+                e["tid"] = "CANARY"
+            traces.append(bad)
+            canary_idx = (len(traces), k + 1)
+            break
+    tf = os.path.join(d, "traces.json")
+    with open(tf, "w") as f:
+        json.dump(traces, f)
+    with open(os.path.join(d, "Run.tla"), "w") as f:
+        f.write("---- MODULE Run ----\nEXTENDS TraceMeta\n====\n")
+    with open(os.path.join(d, "Run.cfg"), "w") as f:
+        f.write("INIT Init\nNEXT Next\nCHECK_DEADLOCK FALSE\n")
+    verdicts = {}
+    res = tlc.run(d, workers=1, timeout=phase.get("timeout", 1800), on_json=lambda o: verdicts.setdefault(o["tid"], o),
+                  extra_env={"TRACE_FILE": tf})
+    ctx.tlc_states += res["states"]
+    ctx.tlc_distinct += res["distinct"]
+    nev = sum(len(t) for t in traces)
+    ctx.tlc_runs.append(dict(profile="tracemeta", states=res["states"], distinct=res["distinct"], traces=len(traces), events=nev,
+                             wall=round(res["wall"], 1), mode="trace-validation"))
+    if len(verdicts) != len(traces):
+        raise tlc.TlcError(f"trace validation gave {len(verdicts)} verdicts for {len(traces)} traces (a trace was silently truncated)\n"
+                           + "\n".join(res["log"][-20:]))
+    if canary_idx is not None:
+        v = verdicts[canary_idx[0]]
+        if v["verdict"] == "ok" or v["step"] != canary_idx[1]:
+            raise tlc.TlcError(f"binding demonstration failed: the corrupted trace was not rejected at step {canary_idx[1]}: {v}")
+        ctx.extra["binding_demo"] = f"corrupted copy of a recorded trace rejected with verdict '{v['verdict']}' at step {v['step']}"
+    for i, t in enumerate(traces, 1):
+        if canary_idx is not None and i == canary_idx[0]:
+            continue
+        v = verdicts[i]
+        if v["verdict"] != "ok":
+            e = t[v["step"] - 1]
+            ctx.failures.append(dict(clause="trace-" + v["verdict"], backend=e.get("backend", "?"), step=v["step"], tainted=False, src=[], srcidx=0,
+                                     detail=f"trace {e['tid']} step {v['step']} verb {e['verb']}: logged names {e['names']} part {e['part']} sql {e['sql']}; "
+                                            f"CacheModel expects names {v.get('expected')}",
+                                     moves=[dict(v=x["verb"], i=x["in"]) for x in t[: v["step"]] if x["verb"] != "source"], heap_obs=[],
+                                     beh=dict(trace=t[: v["step"]], verdict=v)))
+    ctx.behaviours += len(traces) - (1 if canary_idx else 0)
+    ctx.replay_stats["trace_events_validated"] = ctx.replay_stats.get("trace_events_validated", 0) + nev
+    ctx.replay_stats["steps_new"] = ctx.replay_stats.get("steps_new", 0) + nev
+    ctx.notes += notes
+    if len(ctx.samples) < 3 and traces:
+        ctx.samples.append(dict(trace_of=traces[0][0]["tid"], events=[dict(verb=e["verb"], args={k: v for k, v in e["args"].items() if v}, names=e["names"]) for e in traces[0][:4]]))
+    return d
